@@ -1045,10 +1045,17 @@ impl<'a> CompactionIterator<'a> {
 		self.accumulated_versions.dedup_by_key(|b| b.0.seq_num());
 
 		// Check if latest version is DELETE at bottom level
-		// If so, we can completely remove this key from the database
+		// If so, we can completely remove this key from the database - but only
+		// when no active snapshot predates the tombstone. A snapshot older than
+		// the tombstone still reads one of the versions below it, so the key must
+		// then be treated as at a non-bottom level: the versions required by
+		// snapshots are kept, and so is the tombstone that hides them from
+		// newer readers.
 		let latest_is_delete_at_bottom = self.is_bottom_level
 			&& !self.accumulated_versions.is_empty()
-			&& self.accumulated_versions[0].0.is_hard_delete_marker();
+			&& self.accumulated_versions[0].0.is_hard_delete_marker()
+			&& (self.snapshots.is_empty()
+				|| self.snapshots[0] >= self.accumulated_versions[0].0.seq_num());
 
 		// Check if any version is REPLACE
 		// REPLACE semantics: delete all older versions regardless of retention
@@ -1125,11 +1132,13 @@ impl<'a> CompactionIterator<'a> {
 			} else if is_latest && !is_hard_delete && !is_replace {
 				// Latest PUT: never stale (will be output)
 				false
-			} else if is_latest && is_hard_delete && self.is_bottom_level {
+			} else if is_latest && is_hard_delete && latest_is_delete_at_bottom {
 				// Latest DELETE at bottom: stale (won't be output)
 				true
-			} else if is_latest && is_hard_delete && !self.is_bottom_level {
-				// Latest DELETE at non-bottom: not stale (tombstone preserved)
+			} else if is_latest && is_hard_delete && !latest_is_delete_at_bottom {
+				// Latest DELETE at non-bottom (or at the bottom while an older
+				// snapshot still needs a version below it): not stale
+				// (tombstone preserved)
 				false
 			} else if is_latest && is_replace {
 				// Latest REPLACE: not stale (will be output)
